@@ -662,16 +662,17 @@ func checkAtomicReplace(c *Ctx, rule string) {
 	n := 0
 	for _, pkg := range []string{"app", "mcp"} {
 		for _, fn := range p.FuncsInPkg(pkg) {
-			ren := allCalls(fn, func(ci ssa.CallInstruction) bool { return calleeIs(ci, "os", "", "Rename") })
-			tmp := allCalls(fn, func(ci ssa.CallInstruction) bool { return calleeIs(ci, "os", "", "CreateTemp") })
-			if len(ren) == 0 || len(tmp) == 0 || fn.Parent() != nil || !isBytesWriterSig(fn) {
+			fn, isAW := p.atomicWriters()[fn]
+			if !isAW {
 				continue
 			}
+			ren := allCalls(fn, func(ci ssa.CallInstruction) bool { return calleeIs(ci, "os", "", "Rename") })
+			tmp := allCalls(fn, func(ci ssa.CallInstruction) bool { return calleeIs(ci, "os", "", "CreateTemp") })
 			n++
 			name := pkg + "." + fn.Name()
 			one := func(recv, m string) []ssa.CallInstruction {
 				return allCalls(fn, func(ci ssa.CallInstruction) bool {
-					if _, isDefer := ci.(*ssa.Defer); isDefer {
+					if _, isDefer := ci.(*ssa.Defer); isDefer || p.FromDeferred(ci) {
 						return false
 					}
 					return calleeIs(ci, "os", recv, m)
@@ -791,7 +792,7 @@ func checkConfigWriters(c *Ctx, rule string) {
 	atomic := map[*ssa.Function]bool{}
 	for _, pkg := range []string{"app", "mcp"} {
 		for _, fn := range p.FuncsInPkg(pkg) {
-			if len(allCalls(fn, func(ci ssa.CallInstruction) bool { return calleeIs(ci, "os", "", "Rename") })) > 0 && len(allCalls(fn, func(ci ssa.CallInstruction) bool { return calleeIs(ci, "os", "", "CreateTemp") })) > 0 && isBytesWriterSig(topLevel(fn)) {
+			if _, ok := p.atomicWriters()[topLevel(fn)]; ok {
 				atomic[topLevel(fn)] = true
 			}
 		}
@@ -916,7 +917,7 @@ func checkRewriteValidateRestore(c *Ctx, rule string) {
 	atomic := map[*ssa.Function]bool{}
 	for _, pkg := range []string{"app", "mcp"} {
 		for _, fn := range p.FuncsInPkg(pkg) {
-			if fn.Parent() == nil && isBytesWriterSig(fn) && len(allCalls(fn, func(ci ssa.CallInstruction) bool { return calleeIs(ci, "os", "", "Rename") })) > 0 && len(allCalls(fn, func(ci ssa.CallInstruction) bool { return calleeIs(ci, "os", "", "CreateTemp") })) > 0 {
+			if _, ok := p.atomicWriters()[fn]; ok {
 				atomic[fn] = true
 			}
 		}
@@ -1272,4 +1273,31 @@ func contradictingEdges(p *Program, fn *ssa.Function, at ssa.Instruction) []Edge
 		}
 	}
 	return out
+}
+
+// atomicWriters: the functions of app/mcp that replace a file atomically — (path, bytes, …) writers in whose body,
+// with the package's helpers expanded, a temp file is created and renamed over the target. Returned with the view
+// in which the steps are visible; the directory-sync helper (reaches File.Sync, creates no temp file) stays a call.
+func (p *Program) atomicWriters() map[*ssa.Function]*ssa.Function {
+	if p.atomicW != nil {
+		return p.atomicW
+	}
+	p.atomicW = map[*ssa.Function]*ssa.Function{}
+	isSync := func(x ssa.CallInstruction) bool { return calleeIs(x, "os", "File", "Sync") }
+	isTemp := func(x ssa.CallInstruction) bool { return calleeIs(x, "os", "", "CreateTemp") }
+	keep := func(callee *ssa.Function) bool {
+		return p.FuncReaches(callee, isSync, map[*ssa.Function]bool{}) && !p.FuncReaches(callee, isTemp, map[*ssa.Function]bool{})
+	}
+	for _, pkg := range []string{"app", "mcp"} {
+		for _, fn := range p.FuncsInPkg(pkg) {
+			if fn.Parent() != nil || !isBytesWriterSig(fn) {
+				continue
+			}
+			v := p.ViewKeeping(fn, keep)
+			if len(allCalls(v, func(ci ssa.CallInstruction) bool { return calleeIs(ci, "os", "", "Rename") })) > 0 && len(allCalls(v, isTemp)) > 0 {
+				p.atomicW[fn] = v
+			}
+		}
+	}
+	return p.atomicW
 }
